@@ -289,7 +289,24 @@ class Program(object):
             h.update(self.modules[n].digest.encode())
         return h.hexdigest()
 
-    def func(self, qual, rule="PM"):
+    def resigned(self, qual):
+        """a private helper of the inventory whose parameter list is no longer the recorded one (sa/known.py)"""
+        from .known import KNOWN_SIGNATURES
+
+        want = KNOWN_SIGNATURES.get(qual)
+        if want is None:
+            return False
+        try:
+            g = self.func(qual)
+        except AnalysisError:
+            return False
+        return list(g.params) + ["*" + k for k in getattr(g, "kwonly", [])] != want
+
+    def func(self, qual, rule="PM", resigned_ok=False):
+        if rule != "PM" and not resigned_ok and self.resigned(qual):
+            # the helper is evaluated inside its callers (like any new helper); a rule that reads it as a free-standing
+            # function with the recorded parameters has lost its anchor
+            raise AnalysisError(rule, "private helper %s no longer has the recorded parameters: it is judged as part of its callers, and this rule reads it on its own" % qual)
         parts = qual.split(".")
         m = self.modules.get(parts[0])
         if m is None:
@@ -320,7 +337,7 @@ class Program(object):
         out = []
         for n in sorted(self.modules):
             for f in self.modules[n].all_funcs():
-                if include_new or f.qual in KNOWN_FUNCS:
+                if include_new or (f.qual in KNOWN_FUNCS and not self.resigned(f.qual)):
                     out.append(f)
         return out
 
